@@ -306,7 +306,7 @@ class meta_run:
     result = TAny()
 
     def writes(c, self):
-        return [(self.running, "isset"), (self, "_runners"), ("all", "$mhas", lambda x: True), ("all", "$len", lambda x: True)]
+        return [(self.running, "isset"), (self, "_runners"), ("all", "$mhas", lambda x: True), ("all", "$len", lambda x: True), ("all", "$ghost_loop_exc", lambda x: True)]
 
     def ensures(c, self, result):
         le = c.view_term(z3.Select(c.ctx.rd(c.new_heap, "$ghost_loop_exc"), 0), TExc(), c.new_heap)
@@ -693,3 +693,116 @@ class unit_start:
                 c.And(alive, c.Not(svc), present), c.And(c.n_events() == 1, Event.e_kind(e0) == c.ctx.E.event_kind("register_payload"), Event.e_a(e0) == r0._runners[fl].t)),
             "a-collected-service-is-skipped": c.Implies(c.And(c.Not(alive), c.Not(svc)), c.And(c.no_events(), *[c.ctx.rd(c.new_heap, f) == c.ctx.rd(c.old_heap, f) for f in HEAPS])),
         }
+
+
+# ================================================================================ accept loop / shutdown (C12)
+SvcR2 = SvcR
+
+
+@contract(RUN + "service:ServiceRunner._adopt_services", props=["C03", "C12"], skip_body=True, kind="abstract")
+class adopt_services_iface:
+    """one sweep over the service units: starts each unit that is not yet started (verified separately below);
+    raises nothing for the runtime's flavours"""
+    params = dict(self=SvcR)
+    has_events = True
+
+    def writes(c, self):
+        return [("all", "_started", lambda x: True)] + [("all", f, lambda x: True) for f in HEAPS]
+
+    def emits(c, ctx, self):
+        ctx.emit("sweep", self)
+
+
+@contract(RUN + "service:ServiceRunner._accept_services", props=["C12"])
+class accept_services:
+    """the accept loop: announces running / not-shut-down, sweeps the services once per iteration with exactly one trio
+    checkpoint (sleep) per iteration, re-reads the shutdown flag at every loop head and NEVER writes it; on EVERY exit -
+    flag seen, cancellation (absorbed: returns None), failure of a sweep (propagates) - `running` is cleared and
+    `_is_shutdown` set"""
+    params = dict(self=SvcR)
+    has_events = True
+    result = TNone()
+
+    def requires(c, self):
+        return c.And(self.accept_delay >= 0, self.running != self._is_shutdown)
+
+    def writes(c, self):
+        # in particular NOT _must_shutdown: a shutdown request that arrives at any time is never overwritten here
+        return [(self.running, "isset"), (self._is_shutdown, "isset"), ("all", "_started", lambda x: True)] + [("all", f, lambda x: True) for f in HEAPS + ("supply", "demand", "utilisation", "allocation")]
+
+    def ensures(c, self):
+        return {"on-return-running-is-cleared-and-shutdown-is-signalled": c.And(c.Not(flag(self.running, "isset")), flag(self._is_shutdown, "isset")),
+                "starts-by-announcing-not-shut-down-then-running": c.And(c.event_at(0) == c.event("event.clear", self._is_shutdown), c.event_at(1) == c.event("event.set", self.running)),
+                "ends-by-clearing-running-then-signalling-shutdown": c.And(c.event_at(c.n_events() - 2) == c.event("event.clear", self.running),
+                                                                          c.event_at(c.n_events() - 1) == c.event("event.set", self._is_shutdown))}
+
+    raises = {"BaseException": lambda c, self, exc: c.And(c.Not(exc.isa("trio.Cancelled")), c.Not(flag(self.running, "isset")), flag(self._is_shutdown, "isset"))}
+
+    loops = {
+        0: Loop(
+            inv=lambda c, L, k: {
+                "same-runner-and-delays": c.And(c.unchanged(L.self, "_meta_runner", "_is_shutdown", "running", "accept_delay", "_logger"),
+                                                L.max_delay.same(c.old(L.self).accept_delay), L.delay >= 0, L.increase >= 0, L.max_delay >= 0, L.delay <= L.max_delay),
+            },
+            # other threads may set the shutdown flag at any time, services appear, pools move
+            modifies=lambda c, L: [("all", "_must_shutdown", lambda x: True), ("all", "_started", lambda x: True), ("trace",)] + [("all", f, lambda x: True) for f in HEAPS + ("supply", "demand", "utilisation", "allocation")],
+            local_types={"delay": NumFin},
+            step=lambda c, L, L0: {
+                "a-sweep-happens-only-if-the-flag-was-not-set-at-the-loop-head": c.Not(Z.Val.b(c.old(L.self)._must_shutdown.t)),
+                "one-sweep-then-exactly-one-checkpoint-per-iteration": c.events_are(c.event("sweep", L.self), c.event("sleep", L0.delay)),
+                "delay-grows-up-to-the-configured-maximum": c.And(L.delay <= L.max_delay, L.delay >= L0.delay),
+            },
+        )
+    }
+
+
+@contract(RUN + "service:ServiceRunner.shutdown", props=["C12"])
+class shutdown:
+    """requests shutdown, waits until the accept loop has signalled that it ended, then stops every runner"""
+    params = dict(self=SvcR)
+    has_events = True
+
+    def writes(c, self):
+        return [(self, "_must_shutdown"), (self._is_shutdown, "isset")] + [("all", f, lambda x: True) for f in HEAPS]
+
+    def ensures(c, self):
+        return {"flag-first-then-wait-for-the-loop-then-stop": c.And(c.n_events() == 2, c.event_at(0) == c.event("event.wait", self._is_shutdown), c.event_at(1) == c.event("stop", self._meta_runner)),
+                "request-recorded": Z.Val.b(self._must_shutdown.t)}
+
+
+@contract(RUN + "meta_runner:MetaRunner.stop", props=["C12", "C02"], skip_body=True, kind="abstract")
+class meta_stop_iface:
+    """stop(): stops every runner (verified below)"""
+    params = dict(self=MetaR)
+    has_events = True
+
+    def emits(c, ctx, self):
+        ctx.emit("stop", self)
+
+    def writes(c, self):
+        return [("all", f, lambda x: True) for f in HEAPS]
+
+
+@contract(RUN + "service:ServiceRunner.accept", props=["C12", "C01"])
+class accept:
+    """K6: resets the shutdown request, adopts the accept loop as a trio payload, then runs the meta runner: accept ends exactly
+    as MetaRunner.run() ends"""
+    params = dict(self=SvcR)
+    has_events = True
+    result = TAny()
+
+    def writes(c, self):
+        return [(self, "_must_shutdown"), (self._meta_runner.running, "isset"), (self._meta_runner, "_runners"), ("all", "$ghost_loop_exc", lambda x: True)] + [("all", f, lambda x: True) for f in HEAPS]
+
+    def ensures(c, self, result):
+        le = c.view_term(z3.Select(c.ctx.rd(c.new_heap, "$ghost_loop_exc"), 0), TExc(), c.new_heap)
+        return {"returns-only-as-run-returns": c.Or(Z.is_none(le.t), le.isa("KeyboardInterrupt"))}
+
+    def _as_run(c, self, exc):
+        le = c.view_term(z3.Select(c.ctx.rd(c.new_heap, "$ghost_loop_exc"), 0), TExc(), c.new_heap)
+        cause = z3.Select(c.ctx.rd(c.new_heap, "__cause__"), exc.id)
+        return c.And(c.Not(Z.is_none(le.t)), c.Not(le.isa("KeyboardInterrupt")),
+                     c.Implies(le.isa("Exception"), c.And(exc.cls_is("RuntimeError"), cause == le.t)),
+                     c.Implies(c.Not(le.isa("Exception")), exc.t == le.t))
+
+    raises = {"BaseException": _as_run}
